@@ -107,6 +107,17 @@ func runC18(p *load.Program, r *core.Report) {
 					probs = append(probs, "from the local-producer branch the fan-out is reachable without passing the token-equal edge")
 				}
 			}
+			// the replay buffer accepts the publication only behind the token-equal edge as well
+			eachInstr(send, func(in ssa.Instruction) {
+				cc := callCommon(in)
+				if cc != nil && cc.IsInvoke() && cc.Method.Name() == "Push" {
+					if _, path, ok := fieldPath(cc.Value); ok && len(path) > 0 && path[len(path)-1] == "last" {
+						if !edgesDominate(eq, in) {
+							probs = append(probs, "the publication is stored in the replay buffer before the token was found equal: a rejected publication is replayed to later subscribers")
+						}
+					}
+				}
+			})
 			for _, e := range ne {
 				for _, ret := range walkAvoid([]Point{{e.To(), 0}}, func(in ssa.Instruction) bool { return in == fan }, isReturn) {
 					if errKind(ret.(*ssa.Return).Results[0]) == "nil" {
